@@ -616,6 +616,15 @@ def sampled_case(ctx, rng, idx):
         ctx.fail("index", "add_document(%s):exc:%s@%s" % (_ck(cfg), type(e).__name__, _wsite(e)), w, repr(e))
         return ("index-failed", cfg.key()), False, w
     w["segments"] = nseg
+    if len(docs) % 2 == 1:
+        # re-opened as a search process would: the field type (bit width, signedness, shift step, decimal places) now
+        # comes from the pickled schema in the TOC
+        ok, ix = ctx.guard("index", dict(w, step="storage.open_index()"), st.open_index)
+        if not ok:
+            return ("index-failed", cfg.key()), False, w
+        schema = ix.schema
+        w["schema"] = "unpickled from the TOC"
+        ctx.count("idx.reopened_schema")
     nontrivial_any = False
     shapes = []
     all_ids = list(range(len(docs)))
